@@ -2190,6 +2190,7 @@ fn child_request(line: &str) -> String {
             finish_report(rep, "")
         }
         "stress" => stress::child(&t[1..]),
+        "hintmap" => stress::hintmap_child(&t[1..]),
         "ift-bigcap" if t.len() == 2 => ift_bigcap_case(t[1].parse().unwrap_or(29)),
         "brotli" if t.len() == 2 => {
             let seed: u64 = t[1].parse().unwrap_or(0);
@@ -2657,12 +2658,23 @@ fn run(cfg: &Config, s: &mut Session) {
         }
     }
 
+    // ---- 1d. CFF hinter: HintMap::insert sequences (verif hook) against Model/HintMap.lean
+    let n_hm = if thorough { 40000 } else { 5000 };
+    let hm = stress::hintmap_requests(&mut rng, n_hm);
+    let res = run_jobs(&hm, cap, nworkers);
+    for (j, r) in hm.iter().zip(res.iter()) {
+        s.oracle("cff-hintmap-insert-sequence-returns", r.starts_with("len="), || j.clone(), || r.clone());
+        let len: usize = r.trim_start_matches("len=").split_whitespace().next().and_then(|x| x.parse().ok()).unwrap_or(999);
+        s.count(&format!("hintmap:len={}", if len >= 93 { len.to_string() } else { format!("{}x", len / 10) }));
+        s.case("hintmap", j.clone(), r.clone());
+    }
+
     // ---- 5. depth / size stress and capacity boundaries (synthetic inputs, small explicit stack): see c02/stress.rs
     let sj = stress_jobs(&mut rng, thorough);
     let reqs: Vec<String> = sj.iter().map(|j| j.req.clone()).collect();
     let res = run_jobs(&reqs, cap, nworkers);
     for (j, r) in sj.iter().zip(res.iter()) {
-        let fam = j.req.split_whitespace().nth(1).unwrap_or("?");
+        let fam = if j.req.starts_with("hostile ") { "ttlimit" } else { j.req.split_whitespace().nth(1).unwrap_or("?") };
         let class = r.split_whitespace().next().unwrap_or("?");
         s.count(&format!("stress:{fam}:{class}"));
         let ok = r.starts_with("ok");
@@ -2685,6 +2697,7 @@ fn stress_jobs(rng: &mut Rng, thorough: bool) -> Vec<stress::Job> {
     sj.extend(stress::strings_jobs(thorough));
     sj.extend(stress::ifturi_jobs(thorough));
     sj.extend(stress::iftapply_jobs(thorough));
+    sj.extend(stress::gsubnest_jobs(thorough));
     sj
 }
 
